@@ -20,7 +20,7 @@ import (
 // directly; calling String() would re-serialize it to the quoted VCL form
 // and fail to parse. Returns 0 when the backend or port property is absent.
 func getBackendPort(backend *value.Backend) (value.Value, error) {
-	if backend == nil {
+	if backend == nil || backend.Value == nil {
 		return &value.Integer{Value: 0}, nil
 	}
 	for _, p := range backend.Value.Properties {
@@ -43,7 +43,7 @@ func getBackendPort(backend *value.Backend) (value.Value, error) {
 // Returns a not-set STRING when the backend or host property is absent
 // (e.g. no backend request was made, such as on a cache hit).
 func getBackendHost(backend *value.Backend) (value.Value, error) {
-	if backend == nil {
+	if backend == nil || backend.Value == nil {
 		return &value.String{IsNotSet: true}, nil
 	}
 	for _, p := range backend.Value.Properties {
